@@ -418,41 +418,68 @@ func (fo *funcOwn) boolParamBit(v ssa.Value) (guard, bool) {
 
 // condGuard: the guard that holds on successor index si of an If on cond.
 func (fo *funcOwn) condGuard(cond ssa.Value, si int) guard {
-	neg := false
+	return fo.truthGuard(cond, si == 0, 0)
+}
+
+// truthGuard: the bool parameters known to be true when v evaluates to want. A short-circuit `a && b` (or the negation
+// of `a || b`) reaches the branch as a phi of constants and the last operand (go/ssa materialises the case expressions
+// of a tagless switch this way); the guard is what every edge that can produce `want` agrees on.
+func (fo *funcOwn) truthGuard(v ssa.Value, want bool, depth int) guard {
 	for {
-		if u, ok := cond.(*ssa.UnOp); ok && u.Op == token.NOT {
-			cond, neg = u.X, !neg
+		if u, ok := v.(*ssa.UnOp); ok && u.Op == token.NOT {
+			v, want = u.X, !want
 			continue
 		}
 		break
 	}
-	bit, ok := fo.boolParamBit(cond)
-	if !ok {
+	if bit, ok := fo.boolParamBit(v); ok {
+		if want {
+			return bit
+		}
 		return 0
 	}
-	if (si == 0) != neg {
-		return bit
+	phi, ok := v.(*ssa.Phi)
+	if !ok || depth > 4 {
+		return 0
 	}
-	return 0
+	first := true
+	var out guard
+	for i, e := range phi.Edges {
+		if c, ok := e.(*ssa.Const); ok && c.Value != nil && c.Value.Kind() == constant.Bool {
+			if constant.BoolVal(c.Value) != want {
+				continue
+			}
+		}
+		g := fo.blockGuard[phi.Block().Preds[i]] | fo.truthGuard(e, want, depth+1)
+		if first {
+			out, first = g, false
+		} else {
+			out &= g
+		}
+	}
+	return out
 }
 
 func (fo *funcOwn) computeBlockGuards(f *ssa.Function) {
-	for _, b := range f.Blocks {
-		if len(b.Instrs) == 0 {
-			continue
-		}
-		iff, ok := b.Instrs[len(b.Instrs)-1].(*ssa.If)
-		if !ok {
-			continue
-		}
-		for si, t := range b.Succs {
-			g := fo.condGuard(iff.Cond, si)
-			if g == 0 || len(t.Preds) != 1 {
+	// two rounds: a phi condition reads the guards of its predecessor blocks
+	for round := 0; round < 2; round++ {
+		for _, b := range f.Blocks {
+			if len(b.Instrs) == 0 {
 				continue
 			}
-			for _, d := range f.Blocks {
-				if t.Dominates(d) {
-					fo.blockGuard[d] |= g
+			iff, ok := b.Instrs[len(b.Instrs)-1].(*ssa.If)
+			if !ok {
+				continue
+			}
+			for si, t := range b.Succs {
+				g := fo.condGuard(iff.Cond, si)
+				if g == 0 || len(t.Preds) != 1 {
+					continue
+				}
+				for _, d := range f.Blocks {
+					if t.Dominates(d) {
+						fo.blockGuard[d] |= g
+					}
 				}
 			}
 		}
